@@ -833,6 +833,8 @@ struct G
             }
             if (srcb && rng.chance(0.8))
                 e.prob = label(lit(), false);
+            else if (!srcb && rng.chance(0.08))
+                e.prob = label(lit(), false);  // a weight on an edge that leaves an ordinary location is legal too
             t.edges.push_back(e);
         };
         for (int i = 0; i < nedges; ++i) {
